@@ -60,6 +60,12 @@ class C08(Check):
         knobs["SLEEP_TIMER"] = rng.choice([0.1, 0.3, 1.0])
         return {"mode": mode, "point": point, "cause": cause,
                 "cause_delay": rng.choice([0.0, 0.0, 0.0003, 0.002, 0.011, 0.05, 0.3]),
+                # anchored placement (peer-side causes): fire the cause when a library thread
+                # has executed exactly k more steps after the point was reached; in the
+                # thorough tier k sweeps systematically with the run index
+                "anchor": None if rng.random() < 0.5 else {
+                    "thread": rng.choice(["psm_thread", "transport_layer_thread", "recv_message_monitor"]),
+                    "k": (index // 2) % 400 if tier == "thorough" else rng.randrange(0, 400)},
                 "traffic_in": rng.choice([1, 3, 6]), "traffic_out": rng.choice([0, 2, 5]),
                 "sched": draw_sched(rng), "knobs": knobs,
                 "net": {"max_latency": rng.choice([0.0005, 0.003]), "connect_timeout": 0.4,
@@ -163,12 +169,34 @@ class C08(Check):
                     pass
             st["reached_point"] = True
             st["state_at_point"] = w.state()
-            if scn["cause_delay"]:
+            anchored = None
+            if scn.get("anchor") and cause in ("peer_dpr", "peer_eof", "peer_rst", "non_cea"):
+                fired = []
+
+                def fire():
+                    fired.append(sim.now)
+                    if cause == "peer_dpr":
+                        w.peer.send(C.dpr(PEER_HOST, PEER_REALM, hbh=0x77, e2e=0x88))
+                    elif cause == "peer_eof":
+                        w.peer.close()
+                    elif cause == "peer_rst":
+                        w.peer.close(reset=True)
+                    else:
+                        w.peer.send(C.dwa(PEER_HOST, PEER_REALM, hbh=1, e2e=1))
+                if sim.add_step_trigger(scn["anchor"]["thread"], scn["anchor"]["k"], fire):
+                    anchored = fired
+                    sim.wait_until(lambda: bool(fired), 5.0, poll=0.0005)
+                    if not fired:
+                        fire()
+                    sim.probe("anchored_cause")
+            if anchored is None and scn["cause_delay"]:
                 sim.sleep(scn["cause_delay"])
             # ---- apply the cause ---------------------------------------------
             st["cause_applied_at"] = sim.now
             st["state_at_cause"] = w.state()
-            if cause == "local_close":
+            if anchored is not None:
+                pass
+            elif cause == "local_close":
                 closer = w.call("close", w.node.close)
             elif cause == "peer_dpr":
                 w.peer.send(C.dpr(PEER_HOST, PEER_REALM, hbh=0x77, e2e=0x88))
@@ -267,7 +295,7 @@ class C08(Check):
         faults = {"cause:" + cause: 1, "point:" + point: 1,
                   "preemption_in_bromelia_code": sim.preempt_line + sim.preempt_opcode}
         return base_result(sim, violations, summary={k: v for k, v in st.items()},
-                           extra={"faults": faults})
+                           extra={"abstract_states": sorted(w.abstract_states), "faults": faults})
 
 
 CHECK = C08()
